@@ -201,30 +201,34 @@ async fn handle_stream(
             stream.send(Frame::Ok).await?;
         }
 
-        let mut ts = topics.lock().await;
+        // Hold the lock only to look the topic up (or create it). The registration itself may have
+        // to wait for room in the topic's channel, and must not block every other topic meanwhile.
+        let mut tx = {
+            let mut ts = topics.lock().await;
 
-        // Spawn new topic if it doesn't exist yet
-        if !ts.contains_key(topic) {
-            match frame {
-                Frame::RegisterPublisher(_) | Frame::RegisterSubscriber(_) => {
-                    let (fut, tx) = pubsub::Topic::pair();
-                    let handle = tokio::spawn(fut);
+            // Spawn new topic if it doesn't exist yet
+            if !ts.contains_key(topic) {
+                match frame {
+                    Frame::RegisterPublisher(_) | Frame::RegisterSubscriber(_) => {
+                        let (fut, tx) = pubsub::Topic::pair();
+                        let handle = tokio::spawn(fut);
 
-                    topic_handles.lock().await.push(handle);
-                    ts.insert(topic.clone(), Sender::Pubsub(tx));
-                }
-                Frame::RegisterReplier(_) | Frame::RegisterRequestor(_) => {
-                    let (fut, tx) = reqrep::Topic::pair();
-                    let handle = tokio::spawn(fut);
+                        topic_handles.lock().await.push(handle);
+                        ts.insert(topic.clone(), Sender::Pubsub(tx));
+                    }
+                    Frame::RegisterReplier(_) | Frame::RegisterRequestor(_) => {
+                        let (fut, tx) = reqrep::Topic::pair();
+                        let handle = tokio::spawn(fut);
 
-                    topic_handles.lock().await.push(handle);
-                    ts.insert(topic.clone(), Sender::ReqRep(tx));
-                }
-                _ => unreachable!(), // because of `topic` instantiation
-            };
-        }
+                        topic_handles.lock().await.push(handle);
+                        ts.insert(topic.clone(), Sender::ReqRep(tx));
+                    }
+                    _ => unreachable!(), // because of `topic` instantiation
+                };
+            }
 
-        let tx = ts.get_mut(topic).unwrap();
+            ts.get(topic).unwrap().clone()
+        };
 
         match frame {
             Frame::RegisterPublisher(_) => {
